@@ -13,6 +13,9 @@ Runtime monitors, all on the real code:
   Bind parameters come in value form and in callable form (``bindparam(callable_=...)``,
   named and anonymous, plus ORM ``relationship == instance`` criteria whose binds read the
   instance lazily); the two forms of one shape share a key and meet in either order.
+  ``.params()`` is used on several nesting levels (subquery / CTE / scalar subquery / EXISTS / IN
+  subquery / compound member / textual subquery and the enclosing statement) for the same and for
+  different parameter names, with value-less and valued named binds.
   Types (in cast / type_coerce / bindparam / text().columns()) vary in constructor arguments
   (falsy ones included), carry ``with_variant()`` types for one or two dialects, and nest:
   ARRAY(item), a TypeDecorator taking a TypeEngine, PickleType(impl=...), holding stateful
@@ -70,7 +73,7 @@ META = {
     "soft_s": {"quick": 90, "thorough": 800},
     "exhaustive": {"quick": False, "thorough": False},
     "require": ["key_groups_multi", "cached_param_checks_on_hit", "exec_cache_hits", "stmts_executed", "perturbed_pairs_distinct_keys",
-                "callable_bind_siblings", "callable_bind_siblings_executed"],
+                "callable_bind_siblings", "callable_bind_siblings_executed", "multi_level_params_statements"],
     "assumptions": ["uncached compilation of a statement is the reference for its SQL and parameters",
                     "SQLite returns the same multiset of rows for the same SQL text, parameters and database"],
 }
@@ -252,6 +255,8 @@ def part_keys(ctx, env, G):
             ctx.seen("perturbation_tags", tag)
             if tag == "bindcallable":
                 ctx.count("callable_bind_siblings")
+            if len(_params_levels(sp)) >= 2:
+                ctx.count("multi_level_params_statements")
             for f in G.spec_features(sp):
                 ctx.seen("features", f)
             ck = stmt._generate_cache_key()
@@ -351,6 +356,7 @@ def part_keys(ctx, env, G):
                     bad = sorted(k for k in set(got) | set(refparams[dn]) if got.get(k, "<missing>") != refparams[dn].get(k, "<missing>"))
                     ctx.violation(
                         "cacheable-statement:bindparam-with-uncacheable-type" if _has_uncacheable_bind_type(sp) else
+                        "cache-vs-disabled:params-conflict-between-siblings" if _sibling_params_conflict(sp) else
                         "cached-params-differ-from-own-params:" + ("hit" if is_hit else "miss"),
                         f"{dn}: cached construct_params {got!r} != statement's own {refparams[dn]!r} (keys {bad})",
                         {"spec": sp, "dialect": dn, "hit": is_hit, "got": got, "expected": refparams[dn], "values": b.vals.log})
@@ -428,8 +434,35 @@ def _has_uncacheable_bind_type(node):
     return False
 
 
+def _params_levels(node, path=()):
+    """(path, names) for every nesting level of a spec that calls .params()"""
+    out = []
+    if isinstance(node, dict):
+        names = set(node.get("params_map") or ()) | set(node.get("outer_params_map") or ())
+        if names:
+            out.append((path, names))
+        for k, v in node.items():
+            out += _params_levels(v, path + (k,))
+    elif isinstance(node, list):
+        for i, v in enumerate(node):
+            out += _params_levels(v, path + (i,))
+    return out
+
+
+def _sibling_params_conflict(spec):
+    """two statements, neither enclosing the other, give the same parameter name a value with .params()"""
+    lv = _params_levels(spec)
+    for i, (p1, n1) in enumerate(lv):
+        for p2, n2 in lv[i + 1:]:
+            if n1 & n2 and p1[:len(p2)] != p2 and p2[:len(p1)] != p1:
+                return True
+    return False
+
+
 def _witness_feature(spec):
     """a structural feature of the witness that identifies a known defect class (part of the mechanism)"""
+    if _sibling_params_conflict(spec):
+        return "params-conflict-between-siblings"
     if _has_uncacheable_bind_type(spec):
         return "bindparam-with-uncacheable-type"
     for o in spec.get("options", ()) or ():
@@ -584,7 +617,8 @@ def part_exec(ctx, env, G):
                         what = "rows"
                     feat = _witness_feature(it["spec"])
                     ctx.violation(
-                        (f"cacheable-statement:{feat}" if feat == "bindparam-with-uncacheable-type" else f"cache-vs-disabled:{kind}:{feat}")
+                        (f"cacheable-statement:{feat}" if feat == "bindparam-with-uncacheable-type" else
+                         f"cache-vs-disabled:{feat}" if feat == "params-conflict-between-siblings" else f"cache-vs-disabled:{kind}:{feat}")
                         if feat else f"{name}-cache-vs-disabled:{what}:{kind}",
                         f"{what} differ between cache disabled and {name} cache for a {kind} statement "
                         f"(perturbation tag {it['tag']}): disabled={ra!r:.300} {name}={other!r:.300}",
